@@ -375,7 +375,9 @@ func TestC12Trees(t *testing.T) {
 		// meaning: the printings agree with each other and with the model
 		m := lang.NewMachine()
 		eng.ModelHost(m)
-		m.Host["f"] = func(m *lang.Machine, args []lang.Value) (lang.Value, error) { return lang.Int(int64(len(args)) + 1), nil }
+		m.Host["f"] = func(m *lang.Machine, args []lang.Value) (lang.Value, error) {
+			return lang.Int(int64(len(args)) + 1), nil
+		}
 		m.Host["g"] = func(m *lang.Machine, args []lang.Value) (lang.Value, error) {
 			return lang.Array(lang.Int(4), lang.Int(6), lang.Int(8)), nil
 		}
